@@ -88,7 +88,7 @@ pub fn gen_case(prop: &str, verif_seed: u64, idx: u64) -> BtReplay {
     }
     ops.push(BtOp::Scan(true));
     ops.push(BtOp::Scan(false));
-    BtReplay { property: prop.into(), engine: "E3b-btreesim".into(), seed, page, cache, min_keys: rng.range(3, 6) as usize, siblings: rng.range(1, 3) as usize, key_kind: rng.below(3) as u8, payload_len, events: ops, violation: None }
+    BtReplay { property: prop.into(), engine: "E3b-btreesim".into(), seed, page, cache, min_keys: rng.range(3, 6) as usize, siblings: rng.range(1, 3) as usize, key_kind: if std::env::var("AXSIM_NOGUARD").map(|g| g.contains("payload_400")).unwrap_or(false) && rng.chance(25) { 3 } else { rng.below(3) as u8 }, payload_len, events: ops, violation: None }
 }
 
 /// the harness's own order over keys
@@ -111,7 +111,9 @@ fn mk_key(kind: u8, k: i64, keyspace_hint: i64) -> Key {
     match kind {
         0 => Key::U(k as u64),
         1 => Key::I(k - keyspace_hint / 2),
-        _ => Key::T(format!("k{:07}", k)),
+        2 => Key::T(format!("k{:07}", k)),
+        // wide fixed-width text key: low fan-out, so that a few hundred keys give a tree of height 3+
+        _ => Key::T(format!("k{:0>180}", k)),
     }
 }
 
